@@ -417,6 +417,13 @@ def enc(s):
     return "".join(ch if 32 <= ord(ch) < 127 and ch != "%" else "%%%x;" % ord(ch) for ch in s)
 
 
+def reraise_timeout(e):
+    """the per-case alarm of harness.core must not be recorded as an observation"""
+    from harness.core import CaseTimeout
+    if isinstance(e, CaseTimeout):
+        raise e
+
+
 def exc_name(e):
     if isinstance(e, LookupError):
         return "LookupError"
